@@ -9,7 +9,7 @@
    no (address, length) is declared twice, and no IPv6 subnet of length 1..95
    contains ::ffff:0:0 (known finding F20, see the two C03_rdb_is_lpm_refuted theorems). *)
 From DnsV Require Import Base.Bytes Base.Ip Spec.Lpm Model.Rearranger Model.Location.
-From DnsV Require Import Proofs.Lpm Proofs.Location Proofs.Rearranger Proofs.RdbLocate.
+From DnsV Require Import Proofs.Lpm Proofs.Location Proofs.Rearranger Proofs.RdbLocate Proofs.MapV2.
 From Coq Require Import Permutation.
 Open Scope N_scope.
 
@@ -126,6 +126,23 @@ Theorem C03_map_choice_cdb : forall decls kind db,
   Ok (option_map mapid_bytes (map_choice decls kind ls)).
 Proof. intros decls kind db H ls W. exact (cdb_find_map_choice decls kind db (fun v => v) H ls W eq_refl). Qed.
 Print Assumptions C03_map_choice_cdb.
+
+(* RocksDB v2 keys (reversed names, sorted search with skips, findMapInSortedData as
+   repaired in ca8d016): on any database whose map records of this kind are exactly
+   the declarations, each (kind, name, wildcard) declared with one map id *)
+Theorem C03_map_choice_v2 : forall decls kind (db : list kv),
+  (forall d, In d decls -> wf_labelsb (md_name d) = true) ->
+  (forall d d', In d decls -> In d' decls ->
+     md_kind d = md_kind d' -> md_name d = md_name d' -> md_wild d = md_wild d' -> md_id d = md_id d') ->
+  (forall d, In d decls -> md_kind d = kind ->
+     In (vkey kind (rev (md_name d)) (suffix_of (md_wild d)), mv1 (mapid_bytes (md_id d))) db) ->
+  (forall k v, In (k, v) db -> is_prefix [0; kind] k = true ->
+     exists d, In d decls /\ md_kind d = kind /\ k = vkey kind (rev (md_name d)) (suffix_of (md_wild d)) /\
+               v = mv1 (mapid_bytes (md_id d))) ->
+  forall ls, wf_labelsb ls = true ->
+  v2_find_map db [0; kind] (pack_labels ls) = Ok (option_map mapid_bytes (map_choice decls kind ls)).
+Proof. exact v2_find_map_choice. Qed.
+Print Assumptions C03_map_choice_v2.
 
 Theorem C03_cdb_map_records : forall f decls db kind n wild,
   f_maps f = map decl_line decls -> forallb wf_declb decls = true -> cdb_db f = Some db ->
